@@ -146,6 +146,7 @@ type ToResult struct {
 	Obj   *TV
 	Diags []Diag
 	Real  types.Object
+	Hooks []support.HookCall
 }
 
 // FromResult is the outcome of one CopyFrom call.
@@ -153,6 +154,7 @@ type FromResult struct {
 	Panic string
 	Val   *GV
 	Diags []Diag
+	Hooks []support.HookCall
 }
 
 // NewValue builds a fresh root struct holding the abstract value (nil: the zero struct).
@@ -186,6 +188,7 @@ func (p *Program) ExecTo(r *Root, src *GV, target *TV) (res ToResult) {
 		ds := r.To(bg, v, &obj)
 		res.Diags = Canon(ds)
 	}()
+	res.Hooks = support.Log()
 	if res.Panic == "" {
 		res.Obj = DumpTF(obj)
 		res.Real = obj
@@ -213,6 +216,7 @@ func (p *Program) ExecFrom(r *Root, obj *TV, prior *GV) (res FromResult) {
 		ds := r.From(bg, o, v)
 		res.Diags = Canon(ds)
 	}()
+	res.Hooks = support.Log()
 	if res.Panic == "" {
 		res.Val = DumpGo(reflect.ValueOf(v).Elem())
 	}
